@@ -429,6 +429,12 @@ func (m *Mint) MintTokens(mintTokensRequest nut04.PostMintBolt11Request) (cashu.
 				B_s[i] = bm.B_
 			}
 
+			// a swap checks and saves its blinded messages under this lock. Checking
+			// and saving them here needs to be done under it as well or both could
+			// sign the same blinded message, and the one saving last fails half way
+			m.proofsMu.Lock()
+			defer m.proofsMu.Unlock()
+
 			sigs, err := m.db.GetBlindSignatures(B_s)
 			if err != nil {
 				errmsg := fmt.Sprintf("error getting blind signatures from db: %v", err)
